@@ -4,6 +4,7 @@ package main
 // a real server (bundled example store) on kernel-assigned ports, TLS fixtures generated at run time.
 
 import (
+	"syscall"
 	"bufio"
 	"crypto/ecdsa"
 	"crypto/elliptic"
@@ -903,6 +904,25 @@ func modeChurn(args []string) {
 					open = append(open, c)
 				}
 			}
+			// ... and connections to the TLS port that are still inside the handshake: silent, half a ClientHello, a complete
+			// ClientHello without the client's answer - accepted sockets that Stop has to close like any other
+			vcert := p.valid.tlsCert()
+			for i := 0; i < 3; i++ {
+				if c, err := net.DialTimeout("tcp", addr(s.secure), ioTimeout); err == nil {
+					switch i {
+					case 1:
+						c.Write([]byte("\x16\x03\x01\x00\xc8\x01\x00\x00\xc4\x03\x03"))
+					case 2:
+						go func(c net.Conn) {
+							tc := tls.Client(&abortAfterFirstWrite{Conn: c}, p.clientConfig(&vcert))
+							tc.SetDeadline(time.Now().Add(ioTimeout))
+							tc.Handshake()
+						}(c)
+					}
+					open = append(open, c)
+				}
+			}
+			time.Sleep(50 * time.Millisecond)
 		} else {
 			settle(func() bool { return len(s.srv.Conns()) == 0 }, 4*time.Second)
 			res.RegistryAfter = len(s.srv.Conns())
@@ -1373,6 +1393,39 @@ func modeBurst(args []string) {
 			}
 			mu.Unlock()
 		}
+		// two connections of one client host may share their SOURCE port when they go to different listeners (the 4-tuples differ):
+		// they are two connections - two registry entries, each living as long as its own client
+		if lp := freePort(); lp > 0 {
+			d := net.Dialer{Timeout: ioTimeout, LocalAddr: &net.TCPAddr{IP: net.IPv4(127, 0, 0, 1), Port: lp}, Control: reuseAddr}
+			c1, e1 := d.Dial("tcp", addr(s.plain))
+			raw2, e2 := d.Dial("tcp", addr(s.secure))
+			if e1 == nil && e2 == nil {
+				c2 := tls.Client(raw2, p.clientConfig(&vc))
+				c2.SetDeadline(time.Now().Add(ioTimeout))
+				if c2.Handshake() == nil && servedOn(c2, "") {
+					exchange(c1, resp("PING"))
+					if n := len(s.srv.Conns()); n != 2 {
+						add(fmt.Sprintf("a plain and a TLS connection from the same source port %d are served, the registry holds %d connections", lp, n))
+					}
+					c1.Close()
+					settle(func() bool { return len(s.srv.Conns()) <= 1 }, 2*time.Second)
+					time.Sleep(20 * time.Millisecond)
+					if n := len(s.srv.Conns()); n != 1 {
+						add(fmt.Sprintf("after the plain one of two connections from source port %d has left, the registry holds %d connections (the TLS one is still served)", lp, n))
+					}
+					if !servedOn(c2, "") {
+						add("the TLS connection is no longer served after the plain connection from the same source port has left")
+					}
+				}
+			}
+			if c1 != nil {
+				c1.Close()
+			}
+			if raw2 != nil {
+				raw2.Close()
+			}
+			settle(func() bool { return len(s.srv.Conns()) == 0 }, 2*time.Second)
+		}
 		start := make(chan struct{})
 		hold := make(chan struct{})
 		var wg, ready sync.WaitGroup
@@ -1452,6 +1505,12 @@ func modeBurst(args []string) {
 		emit(res)
 	}
 	s.srv.Stop()
+}
+
+func reuseAddr(network, address string, c syscall.RawConn) error {
+	var err error
+	c.Control(func(fd uintptr) { err = syscall.SetsockoptInt(int(fd), syscall.SOL_SOCKET, syscall.SO_REUSEADDR, 1) })
+	return err
 }
 
 // failCloseConn closes the socket and reports an error, as tls.Conn.Close does when the peer is gone
